@@ -8,8 +8,10 @@ import (
 	"database/sql/driver"
 	"encoding/csv"
 	"encoding/hex"
+	"encoding/json"
 	"errors"
 	"fmt"
+	"html"
 	"io"
 	"log/slog"
 	"math"
@@ -19,6 +21,7 @@ import (
 	"os"
 	"path/filepath"
 	"reflect"
+	"regexp"
 	"runtime"
 	"sort"
 	"strconv"
@@ -87,10 +90,10 @@ func (fakeDriver) Open(url string) (driver.Conn, error) {
 	return &fakeConn{db: v.(*fakeDB)}, nil
 }
 func (c *fakeConn) Prepare(q string) (driver.Stmt, error) { return &fakeStmt{db: c.db, q: q}, nil }
-func (c *fakeConn) Close() error                            { return nil }
-func (c *fakeConn) Begin() (driver.Tx, error)               { return nil, errors.New("no tx") }
-func (s *fakeStmt) Close() error                            { return nil }
-func (s *fakeStmt) NumInput() int                           { return -1 }
+func (c *fakeConn) Close() error                          { return nil }
+func (c *fakeConn) Begin() (driver.Tx, error)             { return nil, errors.New("no tx") }
+func (s *fakeStmt) Close() error                          { return nil }
+func (s *fakeStmt) NumInput() int                         { return -1 }
 func (s *fakeStmt) Exec(args []driver.Value) (driver.Result, error) {
 	s.db.mu.Lock()
 	defer s.db.mu.Unlock()
@@ -293,7 +296,22 @@ type allKinds struct {
 	D   time.Time `format:"2006-01-02"`
 }
 
-var nastyStrings = []string{"", "plain", "with,comma", "with \"quotes\"", "line\nbreak", " leading", "trailing ", "ünïcödé ✓", "a,b\"c\nd", "\t", "'"}
+var nastyStrings = []string{"", "plain", "with,comma", "with \"quotes\"", "line\nbreak", " leading", "trailing ", "ünïcödé ✓", "a,b\"c\nd", "\t", "'",
+	"#1 ranked", "#", "cr\r\nlf", "lone\rcr", "\\.", "; semi", "=1+1", "\"", "\"\"", "a\n", "\nb", "-", "0x10", "NaN", "null", "true"}
+
+const nastyAlphabet = "#,\"' \n\t;=-+@\\/|ab01.:<>&%"
+
+func nastyString(r *rand.Rand) string {
+	if r.Intn(3) > 0 {
+		return nastyStrings[r.Intn(len(nastyStrings))]
+	}
+	n := 1 + r.Intn(6)
+	b := make([]byte, n)
+	for i := range b {
+		b[i] = nastyAlphabet[r.Intn(len(nastyAlphabet))]
+	}
+	return string(b)
+}
 
 func genAllKinds(r *rand.Rand) *allKinds {
 	pick := func(ext []int64, lo, hi int64) int64 {
@@ -315,7 +333,7 @@ func genAllKinds(r *rand.Rand) *allKinds {
 		}
 	}
 	return &allKinds{
-		S: nastyStrings[r.Intn(len(nastyStrings))], B: r.Intn(2) == 0,
+		S: nastyString(r), B: r.Intn(2) == 0,
 		I:   int(pick([]int64{math.MinInt64, math.MaxInt64, 0, -1}, -1000, 1000)),
 		I8:  int8(pick([]int64{math.MinInt8, math.MaxInt8, 0}, -100, 100)),
 		I16: int16(pick([]int64{math.MinInt16, math.MaxInt16}, -1000, 1000)),
@@ -358,6 +376,16 @@ func sameAllKinds(a, b *allKinds) string {
 }
 
 // CSVRT seed n perm extras : write n rows, optionally permute the columns / add extra columns in the file, read back
+// crlfOnly: the only difference is that encoding/csv dropped the carriage returns in front of line feeds
+func crlfOnly(want, got *allKinds) bool {
+	if !strings.Contains(want.S, "\r\n") || got.S != strings.ReplaceAll(want.S, "\r\n", "\n") {
+		return false
+	}
+	w := *want
+	w.S = got.S
+	return sameAllKinds(&w, got) == ""
+}
+
 func runCsvRT(args []string) (result string) {
 	defer func() {
 		if r := recover(); r != nil {
@@ -433,12 +461,48 @@ func runCsvRT(args []string) (result string) {
 	if len(got) != len(rows) {
 		return fmt.Sprintf("diff count %d != %d", len(got), len(rows))
 	}
+	crlf := 0
 	for i := range rows {
 		if d := sameAllKinds(rows[i], got[i]); d != "" {
+			if crlfOnly(rows[i], got[i]) {
+				crlf++
+				got[i].S = rows[i].S
+				continue
+			}
 			return fmt.Sprintf("diff row %d %s", i, d)
 		}
 	}
-	return fmt.Sprintf("ok %d", n)
+	// the instance that has just read a (possibly permuted / extended) header writes the rows to a new file,
+	// appends to it, and a fresh instance reads them back
+	file2 := filepath.Join(dir, "t2.csv")
+	if err := c2.WriteToFile(file2, helper.SliceToChan(got)); err != nil {
+		return "ERR rewrite " + err.Error()
+	}
+	if n > 0 {
+		if err := c2.AppendToFile(file2, helper.SliceToChan(got[:1])); err != nil {
+			return "ERR reappend " + err.Error()
+		}
+	}
+	c3, _ := helper.NewCsv[allKinds](true)
+	c3.Logger = quiet
+	ch3, err := c3.ReadFromFile(file2)
+	if err != nil {
+		return "ERR reread " + err.Error()
+	}
+	again := helper.ChanToSlice(ch3)
+	want := rows
+	if n > 0 {
+		want = append(append([]*allKinds{}, rows...), rows[0])
+	}
+	if len(again) != len(want) {
+		return fmt.Sprintf("diff rewrite count %d != %d", len(again), len(want))
+	}
+	for i := range want {
+		if d := sameAllKinds(want[i], again[i]); d != "" && !crlfOnly(want[i], again[i]) {
+			return fmt.Sprintf("diff rewrite row %d %s", i, d)
+		}
+	}
+	return fmt.Sprintf("ok %d crlf=%d", n, crlf)
 }
 
 func finite32(x float64) float32 {
@@ -561,7 +625,111 @@ func runJSONRT(args []string) (result string) {
 			return fmt.Sprintf("diff row %d %s", i, d)
 		}
 	}
+	if d := jsonShapesRT(r, n); d != "" {
+		return "diff " + d
+	}
 	return fmt.Sprintf("ok %d", n)
+}
+
+// element types other than flat structs: optional fields, maps, slices, pointers, nested structs
+type jsonShape struct {
+	A int            `json:"a,omitempty"`
+	S string         `json:"s,omitempty"`
+	M map[string]int `json:"m,omitempty"`
+	L []int          `json:"l,omitempty"`
+	P *float64       `json:"p,omitempty"`
+	N *jsonShape     `json:"n,omitempty"`
+}
+
+func genShape(r *rand.Rand, depth int) jsonShape {
+	var x jsonShape
+	if r.Intn(2) == 0 {
+		x.A = r.Intn(5)
+	}
+	if r.Intn(2) == 0 {
+		x.S = nastyString(r)
+	}
+	if r.Intn(2) == 0 {
+		x.M = map[string]int{}
+		for i, k := 0, r.Intn(3); i <= k; i++ {
+			x.M[string(rune('a'+r.Intn(5)))] = r.Intn(9)
+		}
+	}
+	if r.Intn(2) == 0 {
+		for i, k := 0, r.Intn(4); i <= k; i++ {
+			x.L = append(x.L, r.Intn(9))
+		}
+	}
+	if r.Intn(2) == 0 {
+		v := float64(r.Intn(100)) / 8
+		x.P = &v
+	}
+	if depth > 0 && r.Intn(3) == 0 {
+		n := genShape(r, depth-1)
+		x.N = &n
+	}
+	return x
+}
+
+func jsonShapesRT(r *rand.Rand, n int) string {
+	shapes := make([]jsonShape, n)
+	for i := range shapes {
+		shapes[i] = genShape(r, 2)
+	}
+	want, _ := json.Marshal(shapes)
+	var buf bytes.Buffer
+	if err := helper.ChanToJSON(helper.SliceToChan(shapes), &buf); err != nil {
+		return "shapes " + err.Error()
+	}
+	got := helper.ChanToSlice(helper.JSONToChanWithLogger[jsonShape](&buf, quiet))
+	back, _ := json.Marshal(got)
+	if n == 0 {
+		if len(got) != 0 {
+			return "shapes count"
+		}
+		return ""
+	}
+	if !bytes.Equal(want, back) {
+		return fmt.Sprintf("shapes %s != %s", trunc(string(back), 120), trunc(string(want), 120))
+	}
+	maps := make([]map[string]int, n)
+	for i := range maps {
+		maps[i] = map[string]int{string(rune('a' + i%7)): i}
+	}
+	want, _ = json.Marshal(maps)
+	buf.Reset()
+	if err := helper.ChanToJSON(helper.SliceToChan(maps), &buf); err != nil {
+		return "maps " + err.Error()
+	}
+	gm := helper.ChanToSlice(helper.JSONToChanWithLogger[map[string]int](&buf, quiet))
+	back, _ = json.Marshal(gm)
+	if !bytes.Equal(want, back) {
+		return fmt.Sprintf("maps %s != %s", trunc(string(back), 120), trunc(string(want), 120))
+	}
+	lists := make([][]int, n)
+	for i := range lists {
+		for j := 0; j <= i%4; j++ {
+			lists[i] = append(lists[i], i*10+j)
+		}
+	}
+	want, _ = json.Marshal(lists)
+	buf.Reset()
+	if err := helper.ChanToJSON(helper.SliceToChan(lists), &buf); err != nil {
+		return "lists " + err.Error()
+	}
+	gl := helper.ChanToSlice(helper.JSONToChanWithLogger[[]int](&buf, quiet))
+	back, _ = json.Marshal(gl)
+	if !bytes.Equal(want, back) {
+		return fmt.Sprintf("lists %s != %s", trunc(string(back), 120), trunc(string(want), 120))
+	}
+	return ""
+}
+
+func trunc(s string, n int) string {
+	if len(s) > n {
+		return s[:n]
+	}
+	return strings.ReplaceAll(s, " ", "_")
 }
 
 // ---------------------------------------------------------------- C19 malformed data
@@ -943,7 +1111,30 @@ func protocolOK(events []string, names []string, nstrat int) string {
 	return ""
 }
 
+// buyAt buys at snapshot k and holds: with slowly drifting prices the outcomes of buyAt k, k+1 … differ by far
+// less than one hundredth of a percentage point
+type buyAt struct{ k int }
+
+func (b *buyAt) Name() string { return fmt.Sprintf("Buy At %d", b.k) }
+func (b *buyAt) Compute(c <-chan *asset.Snapshot) <-chan strategy.Action {
+	i := -1
+	return helper.Map(c, func(*asset.Snapshot) strategy.Action {
+		i++
+		if i == b.k {
+			return strategy.Buy
+		}
+		return strategy.Hold
+	})
+}
+func (b *buyAt) Report(c <-chan *asset.Snapshot) *helper.Report {
+	return strategy.NewBuyAndHoldStrategy().Report(c)
+}
+
 var btStrategies = map[string]func() strategy.Strategy{
+	"at1":  func() strategy.Strategy { return &buyAt{1} },
+	"at2":  func() strategy.Strategy { return &buyAt{2} },
+	"at3":  func() strategy.Strategy { return &buyAt{3} },
+	"at5":  func() strategy.Strategy { return &buyAt{5} },
 	"bh":   func() strategy.Strategy { return strategy.NewBuyAndHoldStrategy() },
 	"macd": func() strategy.Strategy { return strategies["Macd"]([]int{2, 4, 2}, nil) },
 	"rsi":  func() strategy.Strategy { return strategies["Rsi"]([]int{3}, []float64{40, 60}) },
@@ -973,6 +1164,10 @@ func runBacktest(args []string) string {
 			var snaps []*asset.Snapshot
 			for i := 0; i < n; i++ {
 				price = math.Max(1, price+math.Round((r.Float64()-0.5)*6*64)/64)
+				if seed%3 == 0 {
+					// tight regime: prices drift by about 1e-6, outcomes of different strategies are nearly equal
+					price = 100 + float64(a) + float64(i)*1e-6*float64(1+r.Intn(3)) + r.Float64()*1e-7
+				}
 				op := price + math.Round((r.Float64()-0.5)*64)/64
 				snaps = append(snaps, &asset.Snapshot{Date: today.AddDate(0, 0, -(n - i)), Open: op, High: math.Max(op, price) + 1, Low: math.Max(0.5, math.Min(op, price)-1), Close: price, Volume: float64(100 + r.Intn(1000))})
 			}
@@ -1100,6 +1295,40 @@ func runBacktest(args []string) string {
 					}
 				}
 				return len(outs), ""
+			}
+			// exact ranking: the rows must be in non-increasing order of the *exact* outcomes (the printed two
+			// decimals cannot show differences below 0.01), and the index must present each asset's maximum
+			exact := func(k string) float64 {
+				v, _ := floatOfHex(strings.SplitN(expect[k], ",", 2)[1])
+				return v
+			}
+			rowRe := regexp.MustCompile(`<a href="[^"]* - ([^"]*)\.html">`)
+			for _, n := range names {
+				raw, _ := os.ReadFile(filepath.Join(dir, n+".html"))
+				var prev float64
+				for i, m := range rowRe.FindAllStringSubmatch(string(raw), -1) {
+					v := exact(n + "/" + html.UnescapeString(m[1]))
+					if i > 0 && v > prev {
+						return fmt.Sprintf("ok unsorted-exact:%s:%s:%v>%v", n, strings.ReplaceAll(m[1], " ", "_"), v, prev)
+					}
+					prev = v
+				}
+			}
+			idxRe := regexp.MustCompile(`(?s)<td><a href="([^"]*)\.html">[^<]*</a></td>\s*<td>([^<]*)</td>`)
+			rawIdx, _ := os.ReadFile(filepath.Join(dir, "index.html"))
+			var prevBest float64
+			for i, m := range idxRe.FindAllStringSubmatch(string(rawIdx), -1) {
+				an, sn := m[1], html.UnescapeString(strings.TrimSpace(m[2]))
+				v := exact(an + "/" + sn)
+				for _, s := range ss {
+					if o := exact(an + "/" + s.Name()); o > v {
+						return fmt.Sprintf("ok best-not-max:%s:%s:%v<%v", an, strings.ReplaceAll(sn, " ", "_"), v, o)
+					}
+				}
+				if i > 0 && v > prevBest {
+					return fmt.Sprintf("ok unsorted-exact:index:%s:%v>%v", an, v, prevBest)
+				}
+				prevBest = v
 			}
 			rows := 0
 			for _, n := range names {
